@@ -418,7 +418,9 @@ func process2StringInterp(obj string, mergeFrom *Document, mergeFromDocs []*Docu
 		}
 
 		if v2, ok := v.(string); ok {
-			v, err = process2String(v2, mergeFrom, mergeFromDocs, ec, depth+1)
+			// Through process2, so that its depth guard reports
+			// self-referential interpolation as a circular reference.
+			v, err = process2(v2, mergeFrom, mergeFromDocs, ec, depth)
 			if err != nil {
 				return "{ERROR}"
 			}
